@@ -202,6 +202,12 @@ def entries(db, qt, cat, base, other, cur=None):
                 ("Scalar.GetValue(u)" + tag, lambda u, caption=caption: Scalar(own(caption), x).GetValue(u)),
                 ("Scalar.CreateCopy(value, unit=u)" + tag, lambda u, caption=caption: Scalar(own(caption), x).CreateCopy(value=7.0, unit=u)),
                 ("Scalar==Scalar" + tag, lambda u, caption=caption: [Scalar(own(caption), x) == Scalar(cat, x, u), Scalar(cat, x, u) == Scalar(own(caption), x)]),
+                # numpy containers (amounts that do not survive a trip to the base unit and back bit for bit)
+                ("Array[ndarray].GetValues(u)" + tag, lambda u, caption=caption: Array(own(caption), np.array([0.1, 7.7, x, 1.0 / 3.0])).GetValues(u)),
+                ("Array[ndarray].CreateCopy(unit=u)" + tag, lambda u, caption=caption: Array(own(caption), np.array([0.1, 7.7, x, 1.0 / 3.0])).CreateCopy(unit=u)),
+                ("FixedArray[ndarray].GetValues(u)" + tag, lambda u, caption=caption: FixedArray(3, own(caption), np.array([0.1, 7.7, 1.0 / 3.0])).GetValues(u)),
+                ("Quantity.Convert(ndarray, u)" + tag, lambda u, caption=caption: own(caption).Convert(np.array([0.1, 7.7, x]), u)),
+                ("Array[ndarray f4].GetValues(u)" + tag, lambda u, caption=caption: Array(own(caption), np.array([0.1, 7.7], dtype=np.float32)).GetValues(u)),
             ]
     return E
 
